@@ -211,6 +211,11 @@ def run(ctx):
     c01.t5(ctx, R)
     from .geval import with_g11
     with_g11(ctx, R, [c01.g2, c01.g4, c01.g5, c01.g6, c03.g7, c03.g9])
+    # what a custom command records is what THIS script wrote for it: string lists are collected per `[ ... ]` (P14 of C01) and every
+    # parser attribute the token handlers write is re-initialised per parse (H2 of C13)
+    c01.p14(ctx, R)
+    from .c13 import h2
+    h2(ctx, R)
     # ---- G10 ----------------------------------------------------------------------
     ctx.rule("G10", "a command is closed by `;` only when every required argument of its definition was given")
     from sa.util import fact_call
